@@ -2,10 +2,10 @@
    Statements only; proofs live in ClientLTSProofs.v.  Model: ClientLTS.v — nmea2000/ioclient.py
    (AsyncIOClient.connect / _receive_loop / send / close / _process_queue / _update_state, the read behaviour of the
    four `_receive_impl`s, tenacity's AsyncRetrying + wait_exponential) as a labelled transition system with a
-   nondeterministic scheduler and peer.  `trans k fe fc fl fd fg` : [k] = client kind (readexactly / readline / read),
+   nondeterministic scheduler and peer.  `trans k sd fe fc fl fd fg` : [k] = client kind (readexactly / readline / read),
    [fe fc fl fd] = the repairs F-eofspin, F-closerace, F-connect-lost, F-serial-drain-leak, [fg] = close() without idempotence guard (the code as it is); the theorems are about
    [true true true true true], for EVERY kind, EVERY reachable state and EVERY run (any length, any schedule, any peer behaviour).
-   `reachable k fe fc fl fd fg x` := exists ls, run k fe fc fl fd fg init ls = Some x.  Delays are in units of 0.5 s. *)
+   `reachable k sd fe fc fl fd fg x` := exists ls, run k sd fe fc fl fd fg init ls = Some x.  Delays are in units of 0.5 s. *)
 From NV Require Import Base ClientLTS ClientLTSProofs ClientLTSLive.
 
 (* ---- after a fault: DISCONNECTED is reported (once), and a reconnect is on its way ---- *)
@@ -13,8 +13,8 @@ From NV Require Import Base ClientLTS ClientLTSProofs ClientLTSLive.
    the EByte 'Sorry,Limited' path) or a write fault in send(); [c] is what the status callback did.
    `reconnect_pending y`: a connect() owns the lock, or one is scheduled (create_task), or the fault handler is still
    inside the status callback and will schedule one. *)
-Theorem C13_fault_reported : forall k x a y c,
-  reachable k true true true true true x -> fault_cb a = Some c -> st x <> Closed -> trans k true true true true true x a = Some y ->
+Theorem C13_fault_reported : forall k sd x a y c,
+  reachable k sd true true true true true x -> fault_cb a = Some c -> st x <> Closed -> trans k sd true true true true true x a = Some y ->
   st y = Disc /\ reconnect_pending y /\
   (st x = Conn -> c <> CbNone /\ trace y = Disc :: trace x) /\
   (st x = Disc -> c = CbNone /\ trace y = trace x).
@@ -23,22 +23,22 @@ Print Assumptions C13_fault_reported.
 
 (* no reconnect request is ever lost: in EVERY reachable state that is DISCONNECTED after a notification (i.e. after a
    connection had been up), a reconnect is pending - this is what F-connect-lost broke *)
-Theorem C13_reconnect_never_lost : forall k x,
-  reachable k true true true true true x -> st x = Disc -> trace x <> [] -> reconnect_pending x.
+Theorem C13_reconnect_never_lost : forall k sd x,
+  reachable k sd true true true true true x -> st x = Disc -> trace x <> [] -> reconnect_pending x.
 Proof. exact reconnect_never_lost. Qed.
 Print Assumptions C13_reconnect_never_lost.
 
 (* ... and the reconnect machinery is never stuck: with a reconnect pending and no task in the middle of a step, one of
    its steps (connect() entry, attempt outcome, back-off timer, end of the status callback / cancel wait, the fault
    handler leaving the status callback) is enabled *)
-Theorem C13_reconnect_progress : forall k x,
-  reachable k true true true true true x -> busy x = false -> reconnect_pending x ->
-  exists a y, reconnect_step a /\ trans k true true true true true x a = Some y.
+Theorem C13_reconnect_progress : forall k sd x,
+  reachable k sd true true true true true x -> busy x = false -> reconnect_pending x ->
+  exists a y, reconnect_step a /\ trans k sd true true true true true x a = Some y.
 Proof. exact reconnect_progress_reachable. Qed.
 Print Assumptions C13_reconnect_progress.
 
-Theorem C13_lock_iff_connect_running : forall k x,
-  reachable k true true true true true x -> (lock x = true <-> hold x <> HNone).
+Theorem C13_lock_iff_connect_running : forall k sd x,
+  reachable k sd true true true true true x -> (lock x = true <-> hold x <> HNone).
 Proof. exact lock_iff_holder. Qed.
 Print Assumptions C13_lock_iff_connect_running.
 
@@ -48,10 +48,10 @@ Print Assumptions C13_lock_iff_connect_running.
    run of at most 5 steps - steps of the connect machinery plus "the gateway accepts the attempt" - that ends CONNECTED,
    the lock released, with a fresh receive task that nobody has cancelled.  (Possibility, not inevitability: that the
    scheduler takes these steps and the gateway accepts is the fairness assumption.) *)
-Theorem C13_recovery_possible : forall k x,
-  reachable k true true true true true x -> st x = Disc -> busy x = false -> reconnect_pending x ->
+Theorem C13_recovery_possible : forall k sd x,
+  reachable k sd true true true true true x -> st x = Disc -> busy x = false -> reconnect_pending x ->
   exists ls, (Forall recovery_step ls /\ (length ls <= 5)%nat) /\
-             exists y, run k true true true true true x ls = Some y /\ recovered y.
+             exists y, run k sd true true true true true x ls = Some y /\ recovered y.
 Proof. exact recovery_possible. Qed.
 Print Assumptions C13_recovery_possible.
 
@@ -59,48 +59,48 @@ Print Assumptions C13_recovery_possible.
 (* `qstep x a`: [a] is a step of the client's own machinery (connect(), receive loop, queue consumer, fault handlers) with a
    gateway that accepts - no application call, no peer action, no failing attempt - that is realistic at x (a suspended read
    is only resumed when it can make progress; a read enqueues at most one message per consumed byte).
-   `qrun k x ls = Some y`: ls is a run of such steps from x to y.  `stuck_quiet k y`: no such step is enabled in y. *)
+   `qrun k sd x ls = Some y`: ls is a run of such steps from x to y.  `stuck_quiet k sd y`: no such step is enabled in y. *)
 
 (* every quiet step strictly decreases the explicit measure [lmu], in EVERY state: a quiet run from x has at most lmu x steps *)
-Theorem C13_recovery_terminates : forall k,
-  (forall x a y, qstep x a = true -> trans k true true true true true x a = Some y -> (lmu y < lmu x)%nat) /\
-  (forall ls x y, qrun k x ls = Some y -> (length ls + lmu y <= lmu x)%nat).
-Proof. intro k. split; [exact (lmu_step k) | exact (recovery_terminates k)]. Qed.
+Theorem C13_recovery_terminates : forall k sd,
+  (forall x a y, qstep x a = true -> trans k sd true true true true true x a = Some y -> (lmu y < lmu x)%nat) /\
+  (forall ls x y, qrun k sd x ls = Some y -> (length ls + lmu y <= lmu x)%nat).
+Proof. intros k sd. split; [exact (lmu_step k sd) | exact (recovery_terminates k sd)]. Qed.
 Print Assumptions C13_recovery_terminates.
 
 (* a reachable non-CLOSED state in which no quiet step is enabled is at rest: CONNECTED, lock free, nothing pending, the
    receive task alive, not cancelled and waiting for data, nothing consumable buffered, queue drained - or it was never
    asked to connect.  In particular every state with a reconnect pending has an enabled quiet step. *)
-Theorem C13_no_deadlock_before_recovery : forall k x,
-  reachable k true true true true true x -> st x <> Closed -> stuck_quiet k x -> rest_connected k x \/ rest_idle x.
+Theorem C13_no_deadlock_before_recovery : forall k sd x,
+  reachable k sd true true true true true x -> st x <> Closed -> stuck_quiet k sd x -> rest_connected k x \/ rest_idle x.
 Proof. exact no_deadlock. Qed.
 Print Assumptions C13_no_deadlock_before_recovery.
 
 (* every maximal quiet run from a reachable non-CLOSED state in which a connect() was asked for (in particular: a reconnect
    is pending after a fault) is finite - at most lmu x steps - and ends recovered *)
-Theorem C13_recovery_inevitable : forall k x ls y,
-  reachable k true true true true true x -> st x <> Closed -> asked x ->
-  qrun k x ls = Some y -> stuck_quiet k y -> (length ls <= lmu x)%nat /\ rest_connected k y.
+Theorem C13_recovery_inevitable : forall k sd x ls y,
+  reachable k sd true true true true true x -> st x <> Closed -> asked x ->
+  qrun k sd x ls = Some y -> stuck_quiet k sd y -> (length ls <= lmu x)%nat /\ rest_connected k y.
 Proof. exact recovery_inevitable. Qed.
 Print Assumptions C13_recovery_inevitable.
 
 Example C13_recovery_inevitable_nonvacuous : exists x y,
-  run KEByte true true true true true init post_fault = Some x /\ st x = Conn /\ eof x = true /\
-  qrun KEByte x quiet_recovery = Some y /\ stuck_quiet KEByte y /\ rest_connected KEByte y /\
+  run KEByte false true true true true true init post_fault = Some x /\ st x = Conn /\ eof x = true /\
+  qrun KEByte false x quiet_recovery = Some y /\ stuck_quiet KEByte false y /\ rest_connected KEByte y /\
   trace y = [Conn; Disc; Conn] /\ (length quiet_recovery <= lmu x)%nat.
 Proof. exact recovery_inevitable_example. Qed.
 
-Theorem C13_recovery_inevitable_after_fault : forall k x ls y,
-  reachable k true true true true true x -> st x <> Closed -> reconnect_pending x ->
-  qrun k x ls = Some y -> stuck_quiet k y -> (length ls <= lmu x)%nat /\ rest_connected k y.
+Theorem C13_recovery_inevitable_after_fault : forall k sd x ls y,
+  reachable k sd true true true true true x -> st x <> Closed -> reconnect_pending x ->
+  qrun k sd x ls = Some y -> stuck_quiet k sd y -> (length ls <= lmu x)%nat /\ rest_connected k y.
 Proof. exact recovery_inevitable_after_fault. Qed.
 Print Assumptions C13_recovery_inevitable_after_fault.
 
 (* why "own step" needs the realism side condition: with the label alone the model (an over-approximation) has a
    self-loop - a suspended read "resumed" without new data *)
 Theorem C13_quiet_only_refuted_spurious_wakeup : exists s,
-  run KEByte true true true true true init rwait_state = Some s /\ quiet (ARxIter RxSusp) = true /\
-  forall n, run KEByte true true true true true s (repeat (ARxIter RxSusp) n) = Some s.
+  run KEByte false true true true true true init rwait_state = Some s /\ quiet (ARxIter RxSusp) = true /\
+  forall n, run KEByte false true true true true true s (repeat (ARxIter RxSusp) n) = Some s.
 Proof. exact quiet_only_refuted_spurious_wakeup. Qed.
 Print Assumptions C13_quiet_only_refuted_spurious_wakeup.
 
@@ -116,23 +116,23 @@ Print Assumptions C13_backoff_monotone.
 
 (* a failing attempt number n (n >= 1 in every reachable state) is followed by a sleep of exactly wait2 n, between 0.5 s and
    10 s, with the lock kept ... *)
-Theorem C13_retry_delay : forall k x a y d,
-  reachable k true true true true true x -> a = AImplFail d \/ a = AImplFailOpened d -> trans k true true true true true x a = Some y ->
+Theorem C13_retry_delay : forall k sd x a y d,
+  reachable k sd true true true true true x -> a = AImplFail d \/ a = AImplFailOpened d -> trans k sd true true true true true x a = Some y ->
   exists n, (1 <= n)%nat /\ (hold x = HAwaitImpl n \/ hold x = HAwaitDrain n) /\ hold y = HBackoff n /\
             d = wait2 (Z.of_nat n) /\ 1 <= d <= 20 /\ lock y = true /\ st y = st x.
 Proof. exact retry_delay. Qed.
 Print Assumptions C13_retry_delay.
 
 (* ... and, unless the client was closed, by attempt n+1: for every n (stop_never) *)
-Theorem C13_retry_continues : forall k x n,
+Theorem C13_retry_continues : forall k sd x n,
   hold x = HBackoff n -> st x <> Closed -> allowed x ABackoffDone = true ->
-  exists y, trans k true true true true true x ABackoffDone = Some y /\ hold y = HAwaitImpl (S n) /\ attempts y = S (attempts x).
+  exists y, trans k sd true true true true true x ABackoffDone = Some y /\ hold y = HAwaitImpl (S n) /\ attempts y = S (attempts x).
 Proof. exact retry_continues. Qed.
 Print Assumptions C13_retry_continues.
 
 (* ---- the gateway accepts again: CONNECTED is reported, a fresh receive task is created and runs ---- *)
-Theorem C13_connect_succeeds : forall k x y cb,
-  st x <> Closed -> trans k true true true true true x (AImplOk cb) = Some y ->
+Theorem C13_connect_succeeds : forall k sd x y cb,
+  st x <> Closed -> trans k sd true true true true true x (AImplOk cb) = Some y ->
   st y = Conn /\ (st x <> Conn -> cb <> CbNone /\ trace y = Conn :: trace x) /\
   match cb with
   | CbSusp => hold y = HStatusCb
@@ -145,27 +145,27 @@ Print Assumptions C13_connect_succeeds.
 (* whenever the connect() that owns the lock finishes (any path: directly, after the status callback, after the cancel
    wait), the client is CLOSED or a fresh, not-cancelled receive task exists, no other receive task is live, and if a
    fault was reported meanwhile another connect() is already scheduled *)
-Theorem C13_connect_finishes : forall k x a y,
-  reachable k true true true true true x -> lock x = true -> trans k true true true true true x a = Some y -> lock y = false ->
+Theorem C13_connect_finishes : forall k sd x a y,
+  reachable k sd true true true true true x -> lock x = true -> trans k sd true true true true true x a = Some y -> lock y = false ->
   st y = Closed \/
   (rx y = RCreated /\ rx_creq y = false /\ old_live y = 0%nat /\
    (st y = Conn \/ (st y = Disc /\ (0 < pending_connects y)%nat))).
 Proof. exact connect_finishes. Qed.
 Print Assumptions C13_connect_finishes.
 
-Theorem C13_fresh_receive_task_runs : forall k x y,
-  st x <> Closed -> trans k true true true true true x ARxStart = Some y -> rx x = RCreated /\ rx y = RRun.
+Theorem C13_fresh_receive_task_runs : forall k sd x y,
+  st x <> Closed -> trans k sd true true true true true x ARxStart = Some y -> rx x = RCreated /\ rx y = RRun.
 Proof. exact fresh_receive_task_runs. Qed.
 Print Assumptions C13_fresh_receive_task_runs.
 
 (* ---- only one receive path ---- *)
 (* `old_live` counts receive tasks that were replaced by a new one without having finished or been cancelled *)
-Theorem C13_single_receive_path : forall k x, reachable k true true true true true x -> old_live x = 0%nat.
+Theorem C13_single_receive_path : forall k sd x, reachable k sd true true true true true x -> old_live x = 0%nat.
 Proof. exact single_receive_path. Qed.
 Print Assumptions C13_single_receive_path.
 
-Theorem C13_old_receive_task_cancelled : forall k x,
-  reachable k true true true true true x -> hold x = HCancelWait -> rx_alive x = false \/ rx_creq x = true.
+Theorem C13_old_receive_task_cancelled : forall k sd x,
+  reachable k sd true true true true true x -> hold x = HCancelWait -> rx_alive x = false \/ rx_creq x = true.
 Proof. exact old_receive_task_cancelled. Qed.
 Print Assumptions C13_old_receive_task_cancelled.
 
@@ -173,8 +173,8 @@ Print Assumptions C13_old_receive_task_cancelled.
 (* `busy x`: the receive loop or the queue consumer is in the middle of an event-loop step (it continued without
    suspending).  `busy_run`: every step of the run is taken from a busy state, i.e. nobody else got the loop.  Such a burst
    is bounded by the bytes already buffered / messages already queued, whatever the peer does (incl. end of stream). *)
-Theorem C13_never_monopolises : forall k x ls y,
-  reachable k true true true true true x -> busy_run k true true true true true x ls = Some y ->
+Theorem C13_never_monopolises : forall k sd x ls y,
+  reachable k sd true true true true true x -> busy_run k sd true true true true true x ls = Some y ->
   (length ls <= S (Z.to_nat (Z.max (buf x) (q x))))%nat.
 Proof. exact never_monopolises. Qed.
 Print Assumptions C13_never_monopolises.
@@ -182,14 +182,14 @@ Print Assumptions C13_never_monopolises.
 (* ---- the code as it was (repair switched off): the defects are runs of the model ---- *)
 (* F-eofspin: the text (and serial) client after end of stream: an unbounded burst, for every n *)
 Theorem C13_eofspin_as_it_was : exists s,
-  run KText false true true true true init spin_prefix = Some s /\ busy s = true /\ st s = Conn /\
-  forall n, busy_run KText false true true true true s (repeat (ARxIter (RxRet 0 0)) n) = Some s.
+  run KText false false true true true true init spin_prefix = Some s /\ busy s = true /\ st s = Conn /\
+  forall n, busy_run KText false false true true true true s (repeat (ARxIter (RxRet 0 0)) n) = Some s.
 Proof. exact eofspin_as_it_was. Qed.
 Print Assumptions C13_eofspin_as_it_was.
 
 (* F-connect-lost: DISCONNECTED, nothing pending, for ever *)
 Theorem C13_connect_lost_as_it_was : exists x,
-  run KEByte true true false true true init connect_lost = Some x /\
+  run KEByte false true true false true true init connect_lost = Some x /\
   st x = Disc /\ lock x = false /\ pending_connects x = 0%nat /\ send_cb x = 0%nat /\ rx x = RWait /\ trace x = [Disc; Conn].
 Proof. exact connect_lost_as_it_was. Qed.
 Print Assumptions C13_connect_lost_as_it_was.
@@ -197,7 +197,7 @@ Print Assumptions C13_connect_lost_as_it_was.
 (* ---- non-vacuity: a session with a refused attempt, a connection, end of stream mid-frame, back-off and recovery is a
    run of the repaired model, and reaches the states the theorems talk about ---- *)
 Example C13_nonvacuous : exists x,
-  run KEByte true true true true true init
+  run KEByte false true true true true true init
     [AConsStart; AUserConnect; AConnEntry true; AImplFail 1; ABackoffDone; AImplOk CbRet; ARxStart; ARxIter RxSusp;
      AEnvFeed 20; ARxIter (RxRet 7 1); ARxIter RxSusp; AConsGot RcRet;
      AEnvEof; ARxIter (RxRaise 0 CbRet); AConnEntry true; AImplFail 1; ABackoffDone; AImplFail 2; ABackoffDone;
